@@ -143,6 +143,8 @@ def unresolved_new_names(ctx, things):
                 look(a[1])
             elif a[0] == "obj":
                 out.add(str(a[1]).split(".")[-1])
+            elif a[0] == "g" and len(a) == 2 and isinstance(a[1], str) and prog.is_new_global(a[1]):
+                out.add(a[1].split(".")[-1])  # a module-level table newer than the rules that the interpreter could not evaluate
 
     for t in things:
         if hasattr(t, "args") and hasattr(t, "name"):  # an Event
